@@ -288,6 +288,9 @@ func runC01(c *Ctx) {
 	c10ParserPerConnectionRule(c, "C01-D9")
 	sendUnderTransportLock(c, "C01-D9")
 	c01Round4(c)
+	c.Rule("C01-D14", "a queued frame is not rewritten: the text frame encodeString returns is the Bytes() of a buffer allocated in that call (no pooled, global or per-parser buffer, which the next Encode would rewrite while the frame is still queued)", 1)
+	frameOwnsItsStorage(c, "C01-D14")
+
 	c.Rule("C01-D13", "the connection handlers have run before the socket's first event can be dispatched (F69, known finding): in Namespace.doConnect the fan-out over the OnAnyConnection/OnConnection handlers is synchronous and precedes the CONNECT reply — "+
 		"a fan-out started on a goroutine after the reply races with the client's first events, which are dispatched with the handler set of that moment and dropped silently", 1)
 	connectionHandlersBeforeFirstEvent(c, "C01-D13")
@@ -401,4 +404,73 @@ func dispatchKeys(c *Ctx, rule string) {
 			c.Ob(rule, "jsonparser.Parser.Add/reconstructor.eventName", st.Pos(), Term(st.(*ssa.Store).Val) == "p.parseHeader(data)#2", "reconstructor.eventName = "+Term(st.(*ssa.Store).Val))
 		}
 	}
+}
+
+// frameOwnsItsStorage (C01-D14): the text frame encodeString returns is queued (poll queue, packet
+// queue, websocket writer) and read later, after encodeString has returned and possibly run again.
+// It must therefore be storage made by that very call: every bytes.Buffer whose Bytes() leaves
+// the function is a local of it (an allocation in encodeString), never a buffer obtained from a
+// pool, a global or a field of the parser, which the next Encode would rewrite under the reader.
+func frameOwnsItsStorage(c *Ctx, rule string) {
+	p := c.P
+	fn := p.Fn("jsonparser", "Parser.encodeString")
+	name := "jsonparser.Parser.encodeString"
+	n := 0
+	for _, cs := range Calls(fn) {
+		if !regexpMatch(`\(\*bytes\.Buffer\)\.Bytes$`, cs.Name) || len(cs.Common().Args) == 0 {
+			continue
+		}
+		// only a Bytes() result that is itself returned (whole, resliced or through a φ) matters:
+		// a copy of it (append([]byte(nil), b...), bytes.Clone, string conversion) owns its storage
+		val, isVal := cs.Instr.(ssa.Value)
+		if !isVal || !reachesReturnUncopied(val, map[ssa.Value]bool{}) {
+			continue
+		}
+		n++
+		recv := cs.Common().Args[0]
+		al, isAlloc := recv.(*ssa.Alloc)
+		ok := isAlloc && al.Parent() == fn
+		c.Ob(rule, fmt.Sprintf("%s/frame-buffer-is-local#%d", name, n), cs.Pos(), ok,
+			"the frame is the Bytes() of "+Term(recv)+", which is not a buffer allocated in this call: the frame is still queued when the next Encode reuses that buffer, and the peer receives another event's bytes")
+	}
+	c.Ob(rule, name+"/frame-source-inspected", fn.Pos(), true, "")
+}
+
+func reachesReturnUncopied(v ssa.Value, seen map[ssa.Value]bool) bool {
+	if seen[v] {
+		return false
+	}
+	seen[v] = true
+	refs := v.Referrers()
+	if refs == nil {
+		return false
+	}
+	for _, r := range *refs {
+		switch x := r.(type) {
+		case *ssa.Return:
+			return true
+		case *ssa.Slice:
+			if x.X == v && reachesReturnUncopied(x, seen) {
+				return true
+			}
+		case *ssa.Phi:
+			if reachesReturnUncopied(x, seen) {
+				return true
+			}
+		case *ssa.ChangeType:
+			if reachesReturnUncopied(x, seen) {
+				return true
+			}
+		case *ssa.Store:
+			// results spilled to a local because of a defer: follow the loads of that local
+			if al, ok := x.Addr.(*ssa.Alloc); ok && x.Val == v && al.Referrers() != nil {
+				for _, ar := range *al.Referrers() {
+					if ld, ok := ar.(*ssa.UnOp); ok && ld.Op == token.MUL && reachesReturnUncopied(ld, seen) {
+						return true
+					}
+				}
+			}
+		}
+	}
+	return false
 }
